@@ -11,6 +11,8 @@ RULE = ('cases = (model kind x input class x sampled trainer options x start) fi
         'hostile calls of the posterior routine; non-trivial = posterior not constant over classes and >= 2 '
         'classes with > 1 % mass (initialisers: >= 2 classes used); distinct by (lane, kind, input class, dtype, '
         'K, D, N, lead, options)')
+REACH_REQUIRED = {'posterior routine: clipping branch': ('distribution/mixture_model_utils.py', r'affiliation = np\.clip\('),
+                  'integration models: built-in alignment': ('distribution/mixture_model_utils.py', r'for permutation in permutations:')}
 DECIDING = ['C01.M1', 'C01.M2', 'C01.M3', 'C01.M4', 'C01.init']
 MIN_DECIDED = {'quick': 150, 'thorough': 1500}
 NEEDS_HOOK = True
